@@ -35,7 +35,7 @@ func fam46(v6 bool) string {
 func c12Scenarios(tier string) []Scenario {
 	var out []Scenario
 	add := func(s *ClientScenario, fam string) {
-		s.Rules = "S"
+		s.Rules = "SL"
 		s.Name = fmt.Sprintf("c12-%04d", len(out))
 		out = append(out, &clientScen{s: s, fam: fam + "-" + fam46(s.V6)})
 	}
@@ -86,6 +86,38 @@ func c12Scenarios(tier string) []Scenario {
 							}
 							add(s, "response-in-try")
 						}
+					}
+				}
+			}
+		}
+	}
+	// several calls on the same client: the schedule of a call must not depend on earlier calls
+	for _, v6 := range []bool{false, true} {
+		for _, T := range []int64{1, 10} {
+			for n := 1; n <= 3; n++ {
+				for _, first := range []int{0, 1} { // first call: silence (all tries time out) / answered in its last try
+					s := &ClientScenario{V6: v6, T: T, Tries: n, BufCap: -1, CloseAt: -1, Bound: 0,
+						Calls: []CallSpec{{ID: 0, Match: MatchGood, CancelAt: -1, After: -1}, {ID: 1, Match: MatchGood, CancelAt: -1, After: 0, Dest: 1},
+							{ID: 0, Match: MatchGood, CancelAt: -1, After: 1, Pkt: 1}}}
+					if first == 1 {
+						s.Dgs = []DgSpec{{At: T*((int64(1)<<uint(n-1))-1) + T/2, Kind: DgGood, ID: 0}}
+					}
+					add(s, "sequential-calls")
+				}
+			}
+		}
+		// the context ends (by cancellation and by deadline) in the middle of every try
+		for _, T := range []int64{2, 10} {
+			for n := -1; n <= 4; n++ {
+				kmax := n
+				if n < 0 {
+					kmax = 4
+				}
+				for k := 1; k <= kmax; k++ {
+					mid := T*((int64(1)<<uint(k-1))-1) + T*(int64(1)<<uint(k-1))/2
+					for _, dl := range []bool{false, true} {
+						add(&ClientScenario{V6: v6, T: T, Tries: n, BufCap: -1, CloseAt: -1, Bound: 0,
+							Calls: []CallSpec{{ID: 0, Match: MatchGood, CancelAt: mid, Deadline: dl, After: -1}}}, "context-ends-mid-try")
 					}
 				}
 			}
